@@ -1,3 +1,4 @@
+import Desert.Lemmas.RoundTripFull
 import Desert.Lemmas.Misc
 /-!
 # C01 — round-trip fidelity of every built-in codec, at any nesting
@@ -29,7 +30,7 @@ theorem builtin_roundtrip_frame (ty : Ty) (v : Val) (st : EncSt) (b : Bytes) (st
     (he : enc [] ty v st = .ok (b, st')) (hu : v.utf8OK) (hst : StOK st) (hd : v.depth < fuel)
     (s : AbsSrc) (t : Bytes) (hw : s.WF) (hv : s.view = b ++ t) (hs : s.strs = st) :
     runAbs (dec [] fuel ty) s = .ok (v, s.after b.length st') := by
-  have := ((rt_all [] EnvV0_nil v).1 ty st b st' fuel he hu hst hd s t hw hv hs).1
+  have := ((rt_wf [] EnvWF_nil v).1 ty st b st' fuel he hu hst hd s t hw hv hs).1
   rwa [(normalize_nil v).1 ty] at this
 
 /-- top level, through the abstract source: `deserialize(serialize(v) ++ t) = v`, with exactly `t` left -/
